@@ -18,6 +18,7 @@ import (
 	"verif/harness/internal/c14"
 	"verif/harness/internal/c15"
 	"verif/harness/internal/c17"
+	"verif/harness/internal/c19"
 )
 
 func main() {
@@ -40,6 +41,8 @@ func main() {
 		os.Exit(c14.Main(os.Args[2:]))
 	case "c15":
 		os.Exit(c15.Main(os.Args[2:]))
+	case "c19":
+		os.Exit(c19.Main(os.Args[2:]))
 	case "c17":
 		os.Exit(c17.Main(os.Args[2:]))
 	case "c02":
